@@ -14,7 +14,14 @@ import (
 // log for ordering and exactly-once checks.  All state is guarded by mutexes
 // or atomics so that the monitor itself cannot be the race.
 
-const NumSites = 10
+// NumSites: sites 0..9 lie between critical sections of the concurrent pipelines and may be
+// perturbed; sites 10 and 11 (one per block in the sequential Writer / Reader) only count steps.
+const (
+	NumSites      = 10
+	NumStepSites  = 12
+	SiteWSeqBlock = 10
+	SiteRSeqBlock = 11
+)
 
 // ---- perturbation --------------------------------------------------------------
 
@@ -29,7 +36,8 @@ var (
 	perturbSeed atomic.Uint64
 	perturbSlow atomic.Int32
 	perturbCtr  atomic.Uint64
-	SiteHits    [NumSites]atomic.Int64
+	SiteHits    [NumStepSites]atomic.Int64
+	steps       atomic.Int64
 )
 
 func SetPerturbation(mode int, seed uint64, slowSite int) {
@@ -46,13 +54,22 @@ func mix(x uint64) uint64 {
 	return x ^ (x >> 31)
 }
 
+// Steps counts the hook sites passed since the last StepsReset: a logical clock of
+// library progress used by the step-bound (runaway loop) monitor.
+const stepsUnperturbed = 1 << 20
+
+func StepsReset()  { steps.Store(0) }
+func Steps() int64 { return steps.Load() }
+
 // Yield is installed as the library's yield hook.
 func Yield(site int) {
-	if site >= 0 && site < NumSites {
+	if site >= 0 && site < NumStepSites {
 		SiteHits[site].Add(1)
 	}
 	mode := perturbMode.Load()
-	if mode == PerturbOff {
+	if n := steps.Add(1); mode == PerturbOff || n > stepsUnperturbed || site >= NumSites {
+		// a call that has already passed a million hook sites is not slowed down any further:
+		// if it is a runaway loop the step bound must be reached quickly
 		return
 	}
 	r := mix(perturbSeed.Load() ^ perturbCtr.Add(1)*0x9E3779B97F4A7C15 ^ uint64(site)<<56)
